@@ -21,7 +21,8 @@
 (***************************************************************************)
 EXTENDS ShardMath, TLC, Json
 
-CONSTANTS MaxN, MaxK, MaxDepth, MaxOps, MaxSaves, MaxGens, Formula
+CONSTANTS MaxN, MaxK, MaxDepth, MaxOps, MaxSaves, MaxGens, Formula,
+          MaxBad      \* unreadable source positions (a SequenceDataSource with ignore_error skips them)
 
 VARIABLES n, kind,
           chain,      \* shard chain of the source, all offsets 0 (as built by the user)
@@ -32,8 +33,9 @@ VARIABLES n, kind,
           saved,      \* sequence of [off, prefix]
           ended,      \* the current iterator has signalled exhaustion
           gens,       \* number of restores so far
-          hist
-vars == <<n, kind, chain, off0, pos, idx, delivered, saved, ended, gens, hist>>
+          hist,
+          bad         \* unreadable positions of the underlying data (kind "seq" only)
+vars == <<n, kind, chain, off0, pos, idx, delivered, saved, ended, gens, hist, bad>>
 
 Iv   == FromChain(n, chain)          \* <<lo0, hi>> of the shard without resume offset
 Lo0  == Iv[1]
@@ -42,7 +44,7 @@ RRi  == chain[1].i
 RRk  == chain[1].k
 
 RECURSIVE SeqFromTo(_, _)
-SeqFromTo(a, b) == IF a >= b THEN <<>> ELSE <<a>> \o SeqFromTo(a + 1, b)
+SeqFromTo(a, b) == IF a >= b THEN <<>> ELSE (IF a \in bad THEN <<>> ELSE <<a>>) \o SeqFromTo(a + 1, b)
 RECURSIVE RRFrom(_)
 RRFrom(j) == IF j >= n THEN <<>>
              ELSE IF j % RRk = RRi THEN <<j>> \o RRFrom(j + 1) ELSE RRFrom(j + 1)
@@ -75,6 +77,7 @@ Init ==
   /\ ended = FALSE
   /\ gens = 0
   /\ hist = <<>>
+  /\ bad \in {x \in SUBSET (0..(n - 1)) : Cardinality(x) <= MaxBad /\ (kind = "iter" => x = {})}
 
 Deliver ==
   /\ ~ended
@@ -82,9 +85,11 @@ Deliver ==
   /\ LET e == Head(Rest) IN
        /\ delivered' = Append(delivered, e)
        /\ pos' = e + 1
-       /\ idx' = e + 1
+       \* the implementation's counter: the position behind the element (every read, also a failed one, consumes its
+       \* position); "count-delivered" is the earlier code, which counted the delivered elements only
+       /\ idx' = IF Formula = "count-delivered" /\ kind = "seq" THEN idx + 1 ELSE e + 1
        /\ hist' = Append(hist, [op |-> "next", expect |-> e])
-  /\ UNCHANGED <<n, kind, chain, off0, saved, ended, gens>>
+  /\ UNCHANGED <<n, kind, chain, off0, saved, ended, gens, bad>>
 
 DeliverEnd ==
   /\ ~ended
@@ -93,7 +98,7 @@ DeliverEnd ==
   /\ pos' = IF kind = "iter" THEN n ELSE pos   \* DataIterator consumes the tail while searching
   /\ idx' = pos'
   /\ hist' = Append(hist, [op |-> "next", expect |-> -1])
-  /\ UNCHANGED <<n, kind, chain, off0, delivered, saved, gens>>
+  /\ UNCHANGED <<n, kind, chain, off0, delivered, saved, gens, bad>>
 
 \* SequenceIterator.state: start_index relative to the shard's own start;
 \* DataIterator.state: absolute index into the underlying iterable.
@@ -102,14 +107,14 @@ CaptureOff ==
   IF kind = "iter"
   THEN (IF Formula = "cumulative" THEN Max(idx, off0)
         ELSE idx)                                 \* pinned: the lazy skip to start_index is forgotten
-  ELSE IF Formula = "cumulative" THEN idx - (Lo0 + off0) + off0
+  ELSE IF Formula \in {"cumulative", "count-delivered"} THEN idx - (Lo0 + off0) + off0
   ELSE idx - (Lo0 + off0)                         \* pinned: offset of the restored start is lost
 
 Capture ==
   /\ Len(saved) < MaxSaves
   /\ saved' = Append(saved, [off |-> CaptureOff, prefix |-> delivered])
   /\ hist' = Append(hist, [op |-> "capture", off |-> CaptureOff])
-  /\ UNCHANGED <<n, kind, chain, off0, pos, idx, delivered, ended, gens>>
+  /\ UNCHANGED <<n, kind, chain, off0, pos, idx, delivered, ended, gens, bad>>
 
 Restore(j) ==
   /\ gens < MaxGens
@@ -121,7 +126,7 @@ Restore(j) ==
   /\ delivered' = saved[j].prefix
   /\ ended' = FALSE
   /\ hist' = Append(hist, [op |-> "restore", j |-> j])
-  /\ UNCHANGED <<n, kind, chain, saved>>
+  /\ UNCHANGED <<n, kind, chain, saved, bad>>
 
 Next == Deliver \/ DeliverEnd \/ Capture \/ \E j \in 1..MaxSaves : Restore(j)
 Spec == Init /\ [][Next]_vars
@@ -136,7 +141,7 @@ SavedInRange == \A j \in 1..Len(saved) :
 \* ------------------------------------------------------------ export
 Done == Len(hist) = MaxOps \/ ~ENABLED Next
 HistBound == Len(hist) <= MaxOps
-Emit == Done => PrintT(<<"H", ToJson([n |-> n, kind |-> kind, chain |-> chain, ops |-> hist,
+Emit == Done => PrintT(<<"H", ToJson([n |-> n, kind |-> kind, chain |-> chain, bad |-> bad, ops |-> hist,
                                        rest |-> Rest, full |-> Full])>>)
-View == <<n, kind, chain, off0, pos, idx, delivered, saved, ended, gens>>
+View == <<n, kind, chain, off0, pos, idx, delivered, saved, ended, gens, bad>>
 =============================================================================
